@@ -1,14 +1,17 @@
 #!/usr/bin/env python3
-"""Summarise worker JSON lines by class, showing one example detail per class."""
-import sys, json, collections
+"""Summarise worker JSON lines by class, showing one example detail per class. argv[1] = max detail chars; env SKIP = regex of classes whose detail is not shown."""
+import sys, json, collections, os, re
 c = collections.Counter(); ex = {}
 n = int(sys.argv[1]) if len(sys.argv) > 1 else 1500
+skip = os.environ.get('SKIP')
 for l in sys.stdin:
     try: r = json.loads(l)
     except Exception: continue
     k = (r.get('class', ''), json.dumps(r.get('shape'), sort_keys=True))
+    if r.get('known'): k = ('KNOWN:' + k[0], k[1])
     c[k] += 1
     if k[0] and k not in ex: ex[k] = (r.get('detail', '')[:n], r.get('replay'))
 for k, v in c.most_common(): print(v, k)
 for k, v in ex.items():
+    if skip and re.search(skip, k[0]): continue
     print('==', k, v[1]); print(v[0])
